@@ -53,6 +53,8 @@ SPEC = {
         "bounded updates: the accumulator is configured with the library's multiplicative / power (exponent 2) half and full bounding functions; the expected applied change upper(pos) - lower(neg) is a closed form written in the check ((ub - w)^k * pos - (w - lb)^k * neg), compared in float64 to 1e-12 relative; other bounding functions (scaled, sharp) are not exercised",
         "sign-insensitive hyperparameters (TripletSTDP's triplet rates): checked by a twin cell registered with the absolute values and by the non-negativity of the parts; the magnitudes themselves are still recomputed from the trainer's monitors",
         "layers: LinearDense(3->2), LinearDirect(3) (receptive axis of length 1) and small Conv2D geometries (every kernel weight shared by 2..10 output positions; strides, zero padding, 1-2 channels / filters); batch sizes 1..3; device CPU",
+        "kernel arguments as tensors: 0-d tensors and per-synapse learning rates of one sign per side (shape of the parameter + a trailing singleton), with the library's exponential kernels only",
+        "cells that die without del_cell: the owning layer is dropped and gc.collect() is called; only the case where an EARLIER-registered cell dies is generated (one or two survivors)",
         "kernel trainers: besides the tie, the parts are compared with a closed form written in the check: the documented rule K_post(t)[t >= 0] + K_pre(t)[t < 0], t = t_post - t_pre - d, evaluated pair by pair from the spike history with the exponential kernels, positive contributions summed into the potentiating part and negative ones into the depressing part (1e-9 relative); applies to sum / mean batch reductions and presynaptic times taken at the synapse input (KernelSTDP with delayed views and amax reductions are covered by the tie only); the pair geometry of each connection is written in the check from its documentation",
     ],
 }
@@ -884,6 +886,67 @@ def shared_parameter_cases(rng):
     return out
 
 
+def tensor_kwarg_cases(rng):
+    """the kernel trainers (weight and delay variants) with kernel keyword arguments given as TENSORS (registered as buffers on
+    the cell state) instead of floats: 0-d tensors or one learning rate per synapse (magnitudes 1/2..2 times the side's rate),
+    on both sides or on one side only (the other side keeps floats), the time constants as tensors too in half of the cases;
+    all four sign modes, so that the post and the pre kernel receive DIFFERENT tensors; histories with causal and anti-causal
+    pairs; a third of the trainers have a second cell whose per-cell kernel arguments (tensors as well) are of another sign mode.
+    Compared with the Lean split of the kernels evaluated with each side's own arguments and with the pair-by-pair oracle"""
+    out = []
+    i = 0
+    for family in KERNEL:
+        for (sa, sb) in SIGNS:
+            for mode in ("scalar", "persynapse"):
+                cfg = base_cfg(rng, family, sa, sb)
+                cfg.update(kw_tensor=mode, tc_tensor=rng.random() < 0.5, stream="tensor-kernel-arguments",
+                           kw_sides=list(rng.choice([("post", "pre"), ("post", "pre"), ("post",), ("pre",)])),
+                           red=rng.choice(["sum", "sum", "mean", "amax"]))
+                if i % 3 != 0:
+                    cfg["delayed"] = False
+                    if family == "KernelSTDP":
+                        cfg.pop("delays", None)
+                if mode == "persynapse":
+                    cfg["lr_scale"] = [rng.choice([0.5, 1.0, 1.5, 2.0]) for _ in range(nweights(cfg))]
+                if i % 3 == 1:
+                    oa, ob = rng.choice([m for m in SIGNS if m != (sa, sb)])
+                    cfg["override"] = {"lr_a": oa * rng.choice([0.5, 0.25]), "lr_b": ob * rng.choice([0.5, 0.125])}
+                i += 1
+                cfg["history"] = rand_history(rng, cfg, rng.randint(5, 7), p=0.45)
+                out.append(cfg)
+    return out
+
+
+def dropped_cell_cases(rng):
+    """one trainer with two cells of DIFFERENT sign modes (one registered with the trainer defaults, one with per-cell rates,
+    in either registration order; homeostasis: opposite plasticity sign and its own target on the other side of the observed
+    rate); the layer owning the FIRST-registered cell is garbage-collected without trainer.del_cell - before the first step or
+    between two steps (a trainer holds only weak references to its cells) - and the surviving cell is stepped and trained on:
+    every call must hand it the split of ITS OWN signed rule"""
+    out = []
+    modes = [((1, -1), (-1, 1)), ((-1, 1), (1, -1)), ((1, 1), (-1, -1)), ((-1, -1), (1, -1))]
+    for fi, family in enumerate(FAMILIES):
+        for k in range(2):
+            (sa, sb), (oa, ob) = modes[(fi + 2 * k + rng.randrange(2)) % 4]
+            cfg = base_cfg(rng, family, sa, sb)
+            cfg["override"] = {"lr_a": oa * rng.choice([0.5, 0.25]), "lr_b": ob * rng.choice([0.5, 0.125])}
+            cfg["stream"] = "cell-dropped"
+            if family == "LinearHomeostasis":
+                tg = rng.choice([0.9, 0.05])
+                cfg.update(param=rng.choice(["weight", "bias", "delay"]), target=tg,
+                           lr_a=sa * 0.125, override={"lr_a": -sa * 0.25, "lr_b": 1.0, "target": 0.95 - tg})
+            if family in THREE_FACTOR:
+                cfg.update(signal_kind=rng.choice(["scalar", "tensor"]),
+                           signal=[rng.choice([1.0, -1.0, 0.5, -2.0]) for _ in range(3)])
+            if k == 1:
+                cfg["cell_order"] = "reversed"
+            cfg["drop"] = ["override" if k == 1 else "default"]
+            cfg["drop_at"] = rng.choice([0, 0, 2, 3])
+            cfg["history"] = rand_history(rng, cfg, 6, p=0.45)
+            out.append(cfg)
+    return out
+
+
 def cancelling_reward_cases(rng):
     """three-factor rules with per-sample reward tensors that are NOT all zero but whose batch total (or mean) is exactly
     zero - equally many / equally weighted rewarded and punished samples, some with an unrewarded sample in between: the
@@ -1051,6 +1114,7 @@ def explore(ctx) -> Exploration:
     try:
         cases = cases_for(rng, thorough) + direction_cases(rng) + override_cases(rng) + multistep_cases(rng) + scale_twin_cases(rng)
         cases += triplet_rate_cases(rng) + bounded_cases(rng) + shared_parameter_cases(rng) + cancelling_reward_cases(rng)
+        cases += tensor_kwarg_cases(rng) + dropped_cell_cases(rng)
         runs = []
         for cfg in cases:
             try:
@@ -1069,6 +1133,11 @@ def explore(ctx) -> Exploration:
     prev_recs = None
     for cfg, recs in zip(cases, runs):
         ex.count("cells", ("default+override+|override|" if cfg.get("abs_twin") else "default+override") if cfg.get("override") else "default")
+        if cfg["family"] in KERNEL:
+            ex.count("kernel_arguments", ("tensor:" + cfg["kw_tensor"] + ":" + "+".join(cfg.get("kw_sides", ("post", "pre")))
+                                          + (":tc" if cfg.get("tc_tensor") else "")) if cfg.get("kw_tensor") else "float")
+        if cfg.get("drop"):
+            ex.count("dropped_cells", f"{'+'.join(cfg['drop'])} (registered first) dropped before step {cfg.get('drop_at', 0)}")
         ex.count("bounding", f"{cfg['bound']['mode']}:{cfg['bound']['fn']}" if cfg.get("bound") else "none")
         ex.count("clearing", "update() applied" if cfg.get("apply") else "del updater.<param>")
         if cfg["family"] in THREE_FACTOR:
@@ -1195,7 +1264,12 @@ def explore(ctx) -> Exploration:
                "in all sign modes with and without bounding, every other applied rule with bounding; the kernel trainers' parts are compared with "
                "the pair-by-pair sums over the spike history (positive contributions -> potentiation, negative -> depression); "
                "three-factor rules with per-sample reward tensors that are not all zero but sum to exactly zero (sum reduction); "
+               "kernel trainers whose kernel arguments are tensors (0-d or one learning rate per synapse, on both sides or one side, time constants "
+               "too) in all four sign modes, with per-cell tensor overrides of another sign mode; two-cell trainers of every family whose first-registered "
+               "cell (defaults or per-cell rates of another sign mode) dies with its layer without del_cell before a step, the survivor trained on; "
                "a call is non-trivial when some part is non-zero; distinct = distinct driver request")
+    # findings with a wrong VALUE first, configurations on which the code raises after them
+    ex.findings.sort(key=lambda f: f.key.startswith("C09:raises"))
     ex.samples = [{"config": {k: v for k, v in cases[0].items() if k != "history"}, "request": runs[0][-1]["line"] if runs[0] else None},
                   {"config": {k: v for k, v in cases[-1].items() if k != "history"}}]
     ex.extra["trainer_cases"] = len(cases)
@@ -1217,6 +1291,9 @@ def replay(ctx, data) -> int:
     torch.set_default_dtype(torch.float64)
     try:
         recs = run_case(cfg)
+    except TrainerRaised as e:
+        print(f"{cfg['family']} ({cfg.get('stream')}): {e}\n    DISAGREEMENT: the configuration is inside the property's quantifier, the specification has a value")
+        return 1
     finally:
         torch.set_default_dtype(old)
     resp = ctx.run_driver(DRIVER, [r["line"] for r in recs])
